@@ -202,7 +202,7 @@ func (t *xTrial) adversarial(r *Rng, ty *xTy) interface{} {
 		return append(nullish, "x", 2147483648, -2147483649, 1.5, true, []interface{}{1}, xChan, 4)[r.Intn(10)]
 	case "Float":
 		// "NaN" parses as a float that is nullish only after serialisation
-		return append(nullish, "x", true, []interface{}{1}, xChan, "NaN", "nan")[r.Intn(9)]
+		return append(nullish, "x", true, []interface{}{1}, xChan, "NaN", "nan", "NaN")[r.Intn(10)]
 	case "Boolean":
 		return append(nullish, "x", "", "false", 0, 3, 1.5, xChan, []interface{}{1})[r.Intn(11)]
 	case "String", "ID":
